@@ -200,14 +200,13 @@ def run_default(ctx: C.Ctx):
                     views.insert(next(ix for ix, w in enumerate(views) if w['pos'] == 'primary'), v)
                 else:
                     views.append(v)
-            # Unchanged-code finding kept out of the histories (findings/ignored-key-cache-defeats-cascaded-raise.md): the default engine
-            # caches a key it ignored per class (json_to_field[key] = ExplicitNull) and a function generated later for the same class under
-            # a raise policy reads that cache, so a key first seen under "ignore" is not rejected afterwards.  A view whose policy is
-            # "raise" therefore never gets a key that an earlier view of the same class presented under "ignore".
+            # (Until repairs 7fd7207 / ade1ea0 a view under a raise policy never received a key that an earlier view of the same class had
+            # presented under "ignore": the lenient function cached such keys where the strict one read them.  The restriction is lifted;
+            # findings/ignored-key-cache-defeats-cascaded-raise.py is the directed regression.)
             ignored_before = set()
             inner_base = inner_doc(base, depth)
             for v in views:
-                v['U'] = draw_unknown(rng, fnames, has_tag, tag_key, exclude=ignored_before if v['policy'] == 'raise' else ())
+                v['U'] = draw_unknown(rng, fnames, has_tag, tag_key, exclude=())
                 if v['policy'] == 'ignore':
                     ignored_before |= set(v['U'])
                 inner_u = with_unknown(rng, inner_base, v['U'])
